@@ -175,9 +175,16 @@ def _pos_first(labels, x):
     return None
 
 
+def _pos_single(labels, x):
+    """NumPy-array spans: a label that matches several positions "does not resolve to a single position" (None)."""
+    hits = [j for j, lab in enumerate(labels) if bool(lab == x)]
+    return hits[0] if len(hits) == 1 else None
+
+
 def _reference(cfg, m2, labels, start, end, tol, min_iter):
     """The statement, executed on the twin `m2` with single-period solves."""
     L = cfg['L']
+    _pos_first = _pos_single if cfg['span'].startswith('nd_') else globals()['_pos_first']
     m2.__dict__['_attempted'] = []
     if cfg['entry'] == 'solve_period':
         j = _pos_first(labels, start)
@@ -480,10 +487,9 @@ def configs(tier: str):
                             if B == 2 and (span not in ('list_sym', 'range') or L > 3):
                                 continue
                             # explicit labels on an ndarray span with repeated labels "do not resolve to a single
-                            # position" (KeyError by the statement; the fallback locator does raise): assume distinct
+                            # position": KeyError by the statement (the reference counts the matches)
                             out.append(cfg5(span=span, L=L, start=s_, end=e_, errors=errors, failures=failures, B=B,
-                                            faults=(L <= 2 and B == 1),
-                                            distinct=(span == 'nd_obj_sym' and 'sym' in (s_, e_))))
+                                            faults=(L <= 2 and B == 1)))
     # models solved before (statuses / iteration counts already set): containment must leave later periods as they were
     for span in ('range', 'list_sym'):
         for L in (2, 3):
@@ -516,8 +522,7 @@ def configs(tier: str):
     for span in ('list_sym', 'range', 'nd_obj_sym', 'nd_int', 'range_step'):
         for L in (1, 2, 3):
             for errors in ('raise', 'skip'):
-                out.append(cfg5(span=span, L=L, entry='solve_period', start='sym', errors=errors, faults=True,
-                                distinct=(span == 'nd_obj_sym')))
+                out.append(cfg5(span=span, L=L, entry='solve_period', start='sym', errors=errors, faults=True))
     for lab in STR_LABELS[:3] + ['zz']:
         out.append(cfg5(span='list_str', L=3, entry='solve_period', start=lab))
     for span, labs in (('range', [1999, 2000, 2001, 2002, 2003]), ('range_step', [1995, 2000, 2003, 2005, 2010, 2015]), ('nd_int', [1999, 2000, 2002, 2003])):
